@@ -78,3 +78,5 @@ hs!(h_seq_writers, sc_seq_writers, 4, 12);
 hs!(h_byte_writers, sc_byte_writers, 3, 12);
 hs!(h_empty_writers, sc_empty_writers, 1, 12);
 h!(h_size_calc, sc_size_calc, 4, 42);
+hs!(h_dec_bytes, sc_dec_bytes, 5, 12);
+hs!(h_dec_opt_res, sc_dec_opt_res, 4, 12);
